@@ -869,7 +869,7 @@ pub fn cmd_fc(args: &[String]) -> i32 {
       let l = l.unwrap();
       if l.trim().is_empty() { continue; }
       let case: Value = serde_json::from_str(&l).unwrap();
-      worlds.push((format!("prog{i}"), fc::render_program(&case["prog"]), Some(case)));
+      worlds.push((format!("prog{i}"), fc::render_program(&case["prog"], i), Some(case)));
     }
   } else if let Some(sf) = arg(args, "--shapes") {
     for (i, l) in std::io::BufReader::new(std::fs::File::open(sf).expect("shapes")).lines().enumerate() {
